@@ -1,3 +1,4 @@
+#define _DEFAULT_SOURCE 1
 /* Driver for aws/aws_sign.c: same case lines as model/aws_main.ml.  time() is interposed
  * (--wrap=time): the k-th call within one case returns t + k, so code that samples the clock
  * twice produces a date and a datetime from different seconds. */
@@ -40,6 +41,32 @@ char * __wrap_strdup(const char * s)
 	return __real_strdup(s);
 }
 
+/* Request bodies of odd length live at the END of one persistent region that is followed by an
+ * inaccessible page: a caller that re-uses its buffer hands the library the same address and
+ * length with different contents on consecutive requests (anything the library remembered about
+ * "this buffer" is then stale), and a read past the body faults.  Bodies of even length are
+ * exact-size heap blocks (ASan red zones on both sides), fresh for every request. */
+#include <sys/mman.h>
+#include <unistd.h>
+#define DRV_ARENA (1u << 20)
+static uint8_t * drv_arena_end;
+
+static uint8_t * body_place(uint8_t * b, size_t len, int * inarena)
+{
+	*inarena = 0;
+	if (b == NULL || (len % 2) == 0 || len > DRV_ARENA) return b;
+	if (drv_arena_end == NULL) {
+		long pg = sysconf(_SC_PAGESIZE);
+		uint8_t * m = mmap(NULL, DRV_ARENA + (size_t)pg, PROT_READ | PROT_WRITE, MAP_PRIVATE | MAP_ANONYMOUS, -1, 0);
+		if (m == MAP_FAILED || mprotect(m + DRV_ARENA, (size_t)pg, PROT_NONE)) { printf("bad-arena\n"); exit(3); }
+		drv_arena_end = m + DRV_ARENA;
+	}
+	memcpy(drv_arena_end - len, b, len);
+	free(b);
+	*inarena = 1;
+	return drv_arena_end - len;
+}
+
 static char * cstr_of(const char * tok)
 {
 	size_t n; uint8_t * p = drv_unhex(tok, &n, 1);
@@ -61,17 +88,17 @@ int main(void)
 			n -= 2;
 		}
 		char * a[8]; int i; char * c = NULL, * d = NULL, * au = NULL;
-		uint8_t * body = NULL; size_t bodylen = 0; int rc;
+		uint8_t * body = NULL; size_t bodylen = 0; int rc; int inarena = 0;
 		drv_tcalls = 0;
 		if (n == 9 && strcmp(tok[0], "s3h") == 0) {
 			for (i = 0; i < 6; i++) a[i] = cstr_of(tok[1 + i]);
-			if (strcmp(tok[7], "NULL") != 0) body = drv_unhex(tok[7], &bodylen, 0); else bodylen = DRV_NULL_BODYLEN;
+			if (strcmp(tok[7], "NULL") != 0) { body = drv_unhex(tok[7], &bodylen, 0); body = body_place(body, bodylen, &inarena); } else bodylen = DRV_NULL_BODYLEN;
 			drv_t0 = (time_t)strtoll(tok[8], NULL, 10);
 			drv_inlib = 1; rc = aws_sign_s3_headers(a[0], a[1], a[2], a[3], a[4], a[5], body, bodylen, &c, &d, &au); drv_inlib = 0;
 			if (rc == 0) { printf("ok "); puthexstr(c); printf(" "); puthexstr(d); printf(" "); puthexstr(au); printf("\n"); free(c); free(d); free(au); }
 			else printf("fail\n");
 			for (i = 0; i < 6; i++) free(a[i]);
-			free(body);
+			if (!inarena) free(body);
 		} else if (n == 9 && strcmp(tok[0], "s3q") == 0) {
 			char * q;
 			for (i = 0; i < 6; i++) a[i] = cstr_of(tok[1 + i]);
@@ -81,7 +108,7 @@ int main(void)
 			for (i = 0; i < 6; i++) free(a[i]);
 		} else if (n == 7 && (strcmp(tok[0], "svc") == 0 || strcmp(tok[0], "ddb") == 0)) {
 			for (i = 0; i < 4; i++) a[i] = cstr_of(tok[1 + i]);
-			if (strcmp(tok[5], "NULL") != 0) body = drv_unhex(tok[5], &bodylen, 0); else bodylen = DRV_NULL_BODYLEN;
+			if (strcmp(tok[5], "NULL") != 0) { body = drv_unhex(tok[5], &bodylen, 0); body = body_place(body, bodylen, &inarena); } else bodylen = DRV_NULL_BODYLEN;
 			drv_t0 = (time_t)strtoll(tok[6], NULL, 10);
 			drv_inlib = 1;
 			if (tok[0][0] == 's')
@@ -92,7 +119,7 @@ int main(void)
 			if (rc == 0) { printf("ok "); puthexstr(c); printf(" "); puthexstr(d); printf(" "); puthexstr(au); printf("\n"); free(c); free(d); free(au); }
 			else printf("fail\n");
 			for (i = 0; i < 4; i++) free(a[i]);
-			free(body);
+			if (!inarena) free(body);
 		} else
 			printf("bad-case\n");
 	}
